@@ -1095,19 +1095,32 @@ func c17Placeholders(c *Ctx) {
 	// ResolveCustomTags: resolver error returned
 	if rt := P.Func("lib/confutil", "", "ResolveCustomTags"); rt != nil {
 		ok := false
-		EachInstr(rt, func(in ssa.Instruction) {
-			cl, isC := in.(*ssa.Call)
-			if !isC || cl.Call.StaticCallee() != nil || cl.Call.IsInvoke() {
-				return
-			}
-			if _, isB := cl.Call.Value.(*ssa.Builtin); isB {
-				return
-			}
-			// the dynamic call of the resolver
-			if sig := cl.Call.Signature(); sig.Params().Len() == 1 && sig.Results().Len() == 2 {
-				ok = checkErrPropagated(c, "O17.7", fk(rt)+":resolver-error-returned", cl)
-			}
-		})
+		// in ResolveCustomTags or in a helper of the package it calls (substituteTags); then the helper's error must be
+		// returned by ResolveCustomTags as well
+		for _, g := range FindFuncs(rt, 2, func(*ssa.Function) bool { return true }) {
+			EachInstr(g, func(in ssa.Instruction) {
+				cl, isC := in.(*ssa.Call)
+				if !isC || cl.Call.StaticCallee() != nil || cl.Call.IsInvoke() {
+					return
+				}
+				if _, isB := cl.Call.Value.(*ssa.Builtin); isB {
+					return
+				}
+				// the dynamic call of the resolver
+				if sig := cl.Call.Signature(); sig.Params().Len() == 1 && sig.Results().Len() == 2 {
+					ok = checkErrPropagated(c, "O17.7", fk(g)+":resolver-error-returned", cl)
+					for at, d := SoleCallSite(g), 0; ok && g != rt && at != nil && d < 3; d++ {
+						if hc, isHC := at.(*ssa.Call); isHC {
+							ok = checkErrPropagated(c, "O17.7", fk(at.Parent())+":resolver-error-returned-by-the-caller", hc)
+						}
+						if at.Parent() == rt {
+							break
+						}
+						at = SoleCallSite(at.Parent())
+					}
+				}
+			})
+		}
 		c.Check(ok, "O17.7", fk(rt)+":resolver-called-and-checked", rt.Pos(), "ResolveCustomTags calls the registered resolver and returns its error")
 	}
 	_ = os.Getenv
